@@ -863,6 +863,265 @@ fn record(rep: &mut Report, pair: &Pair, evs: &[Ev], findings: Vec<Finding>) {
     }
 }
 
+// ------------------------------------------------------------------ real PeerSession cross-check (wall-clock; confirms only)
+
+/// One real `PeerSession` over loopback (accept_connection + run): the test
+/// plays the remote speaker — reads the daemon's OPEN, answers OPEN(remote
+/// hold time) + KEEPALIVE and then stays silent for `observe_ms`, recording
+/// what the daemon sends.  Wall-clock, so the result is never a verdict of its
+/// own: it is compared with what `VDriver` predicts for the same history.
+mod real {
+    use super::super::super::{Global, GlobalHandle, PeerParams, RouteReflectorConfig, accept_connection};
+    use crate::fsm::{Role, State};
+    use crate::table_manager::{TableHandle, TableManager};
+    use fnv::FnvHashMap;
+    use rustybgp_packet::bgp::{self, Capability, Family, HoldTime};
+    use std::net::Ipv4Addr;
+    use std::sync::Arc;
+    use std::time::{Duration, Instant};
+    use tokio::io::{AsyncReadExt, AsyncWriteExt};
+    use tokio::net::{TcpListener, TcpStream};
+    use tokio::sync::mpsc;
+
+    #[derive(Debug, Default)]
+    pub(super) struct Observed {
+        pub got_open: bool,
+        pub open_hold: u16,
+        /// milliseconds after our OPEN+KEEPALIVE at which KEEPALIVEs arrived
+        pub keepalives_ms: Vec<u64>,
+        /// (ms, code, subcode) of a NOTIFICATION
+        pub notification: Option<(u64, u8, u8)>,
+        pub eof_ms: Option<u64>,
+        pub error: Option<String>,
+    }
+
+    pub(super) fn probe(local_hold: u64, remote_hold: u16, observe_ms: u64) -> Observed {
+        let rt = match tokio::runtime::Builder::new_multi_thread().worker_threads(2).enable_all().build() {
+            Ok(rt) => rt,
+            Err(e) => {
+                return Observed { error: Some(format!("runtime: {}", e)), ..Default::default() };
+            }
+        };
+        let obs = rt.block_on(async move { probe_async(local_hold, remote_hold, observe_ms).await });
+        rt.shutdown_timeout(Duration::from_millis(500));
+        obs
+    }
+
+    async fn probe_async(local_hold: u64, remote_hold: u16, observe_ms: u64) -> Observed {
+        let mut obs = Observed::default();
+        let (ktx, _krx) = mpsc::unbounded_channel();
+        let (btx, _brx) = mpsc::unbounded_channel();
+        let mut g = Global::new(ktx, btx);
+        g.asn = 65001;
+        g.router_id = Ipv4Addr::new(10, 0, 0, 1);
+        let global: GlobalHandle = Arc::new(tokio::sync::RwLock::new(g));
+        let tables: TableHandle = Arc::new(TableManager::new(1));
+
+        let listener = match TcpListener::bind("127.0.0.1:0").await {
+            Ok(l) => l,
+            Err(e) => {
+                obs.error = Some(format!("bind: {}", e));
+                return obs;
+            }
+        };
+        let addr = listener.local_addr().unwrap();
+        let (client, server) = tokio::join!(TcpStream::connect(addr), listener.accept());
+        let (mut client, server) = match (client, server) {
+            (Ok(c), Ok((s, _))) => (c, s),
+            _ => {
+                obs.error = Some("loopback connect failed".into());
+                return obs;
+            }
+        };
+        let remote_addr = client.local_addr().unwrap().ip();
+        {
+            let mut g = global.write().await;
+            let params = PeerParams {
+                remote_addr,
+                remote_port: 179,
+                expected_remote_asn: 65002,
+                local_asn: 0,
+                passive: true,
+                rs_client: false,
+                route_reflector: RouteReflectorConfig::default(),
+                delete_on_disconnected: false,
+                admin_down: false,
+                state: State::Idle,
+                holdtime: local_hold,
+                connect_retry_time: PeerParams::DEFAULT_CONNECT_RETRY_TIME,
+                multihop_ttl: None,
+                ttl_security: None,
+                password: None,
+                families: FnvHashMap::default(),
+                send_max: FnvHashMap::default(),
+                prefix_limits: FnvHashMap::default(),
+                graceful_restart: None,
+                llgr: None,
+                bfd_config: None,
+                neighbor_interface: None,
+                bind_interface: None,
+                export_policy: None,
+            };
+            if let Err(e) = g.add_peer(params, None) {
+                obs.error = Some(format!("add_peer: {:?}", e.to_string()));
+                return obs;
+            }
+        }
+        let Some(session) = accept_connection(&global, &tables, server, Role::Passive).await else {
+            obs.error = Some("accept_connection refused".into());
+            return obs;
+        };
+        let (active_tx, _active_rx) = mpsc::unbounded_channel::<TcpStream>();
+        let g2 = Arc::clone(&global);
+        let task = tokio::spawn(async move { session.run(g2, active_tx).await });
+
+        let mut codec = bgp::PeerCodec::new();
+        let mut rx = bytes::BytesMut::with_capacity(4096);
+        // 1. the daemon's OPEN
+        let t0 = Instant::now();
+        while !obs.got_open && t0.elapsed() < Duration::from_secs(10) {
+            match tokio::time::timeout(Duration::from_millis(500), client.read_buf(&mut rx)).await {
+                Ok(Ok(0)) => {
+                    obs.error = Some("EOF before OPEN".into());
+                    return obs;
+                }
+                Ok(Ok(_)) => {}
+                Ok(Err(e)) => {
+                    obs.error = Some(format!("read: {}", e));
+                    return obs;
+                }
+                Err(_) => continue,
+            }
+            while let Ok(Some(m)) = codec.try_parse(&mut rx) {
+                if let bgp::ParsedMessage::Open(o) = m {
+                    obs.got_open = true;
+                    obs.open_hold = o.holdtime.seconds();
+                }
+            }
+        }
+        if !obs.got_open {
+            obs.error = Some("no OPEN within 10 s".into());
+            return obs;
+        }
+        // 2. our OPEN + KEEPALIVE
+        let open = bgp::Message::Open(bgp::Open {
+            as_number: 65002,
+            holdtime: HoldTime::new(remote_hold).unwrap(),
+            router_id: u32::from(Ipv4Addr::new(10, 0, 0, 2)),
+            capability: vec![Capability::MultiProtocol(Family::IPV4), Capability::FourOctetAsNumber(65002)],
+        });
+        let mut tx = bytes::BytesMut::with_capacity(256);
+        let _ = codec.encode_to(&open, &mut tx);
+        let _ = codec.encode_to(&bgp::Message::Keepalive, &mut tx);
+        if let Err(e) = client.write_all(&tx).await {
+            obs.error = Some(format!("write: {}", e));
+            return obs;
+        }
+        // 3. silence; record what arrives
+        let t1 = Instant::now();
+        let window = Duration::from_millis(observe_ms);
+        'obs: while t1.elapsed() < window {
+            let left = window.saturating_sub(t1.elapsed());
+            match tokio::time::timeout(left, client.read_buf(&mut rx)).await {
+                Ok(Ok(0)) => {
+                    obs.eof_ms = Some(t1.elapsed().as_millis() as u64);
+                    break;
+                }
+                Ok(Ok(_)) => {}
+                Ok(Err(_)) => {
+                    obs.eof_ms = Some(t1.elapsed().as_millis() as u64);
+                    break;
+                }
+                Err(_) => break,
+            }
+            while let Ok(Some(m)) = codec.try_parse(&mut rx) {
+                let ms = t1.elapsed().as_millis() as u64;
+                match m {
+                    bgp::ParsedMessage::Keepalive => obs.keepalives_ms.push(ms),
+                    bgp::ParsedMessage::Notification(n) => {
+                        obs.notification = Some((ms, n.notification_code(), n.notification_subcode()));
+                        break 'obs;
+                    }
+                    _ => {}
+                }
+            }
+        }
+        drop(client);
+        let _ = tokio::time::timeout(Duration::from_secs(2), task).await;
+        obs
+    }
+}
+
+/// What the virtual-time model predicts for the probe's history.
+fn model_prediction(local: u16, remote: u16, observe_s: u64) -> (bool /*dies of hold expiry*/, Option<u64> /*at second*/) {
+    let pair = Pair::new(local, remote, Role::Passive);
+    let mut t = Tally::default();
+    let mut sink = Vec::new();
+    let mut s = Session::new(&pair, false);
+    for e in [Ev::Open, Ev::Ka] {
+        if s.alive {
+            s.event(e, &mut t, &mut sink);
+        }
+    }
+    let mut died_at = None;
+    for _ in 0..observe_s {
+        if !s.alive {
+            break;
+        }
+        s.event(Ev::Adv(1), &mut t, &mut sink);
+        if !s.alive {
+            died_at = Some(s.drv.now);
+        }
+    }
+    if !s.alive && died_at.is_none() {
+        died_at = Some(s.drv.now);
+    }
+    (!s.alive, died_at)
+}
+
+fn real_sessions(rep: &mut Report) {
+    // (local, remote, seconds observed)
+    for (l, r, secs) in [(0u16, 0u16, 2u64), (90, 0, 2), (0, 90, 2), (3, 3, 5), (9, 3, 5)] {
+        let obs = real::probe(l as u64, r, secs * 1000 + 500);
+        let (model_dies, model_at) = model_prediction(l, r, secs);
+        let real_hold_expired = matches!(obs.notification, Some((_, 4, _)));
+        rep.eval();
+        let verdict = if let Some(e) = &obs.error {
+            rep.count("real-session:probe-failed");
+            format!("probe failed: {}", e)
+        } else if real_hold_expired == model_dies {
+            rep.count("real-session:agrees-with-model");
+            if real_hold_expired && l.min(r) == 0 {
+                rep.count("real-session:hold-0-session-died-of-hold-expiry");
+            }
+            "agrees".to_string()
+        } else {
+            rep.count("real-session:DISAGREES-with-model");
+            if real_hold_expired && !model_dies {
+                // the transcription missed something the real driver does
+                rep.inconclusive(&format!(
+                    "real PeerSession (local hold {}, remote hold {}) sent NOTIFICATION {:?} but the virtual-time driver model predicts no expiry: the model is not faithful",
+                    l, r, obs.notification
+                ));
+            }
+            "disagrees".to_string()
+        };
+        rep.sample(Json::obj(vec![
+            ("real_session", Json::s(format!("local={} remote={}", l, r))),
+            ("sent_open_hold", Json::i(obs.open_hold)),
+            ("keepalives_ms", Json::arr(obs.keepalives_ms.iter().map(|x| Json::i(*x)))),
+            ("notification_ms_code_subcode", match obs.notification {
+                Some((ms, c, sc)) => Json::arr([Json::i(ms), Json::i(c), Json::i(sc)]),
+                None => Json::Null,
+            }),
+            ("eof_ms", obs.eof_ms.map(Json::i).unwrap_or(Json::Null)),
+            ("model_dies_of_hold_expiry", Json::Bool(model_dies)),
+            ("model_at_s", model_at.map(Json::i).unwrap_or(Json::Null)),
+            ("comparison", Json::s(verdict)),
+        ]));
+    }
+}
+
 fn shard_index(p: &Params) -> usize {
     p.shard.rsplit('-').next().and_then(|s| s.parse().ok()).unwrap_or(0)
 }
@@ -1076,6 +1335,10 @@ fn run() {
         if part == "all" || part == "random" {
             let n = params.get_u64("random", params.n(10_000, 300_000));
             random_histories(&mut rep, &params, n, &mut t);
+        }
+        if part == "real" {
+            rep.max_samples = 8;
+            real_sessions(&mut rep);
         }
     });
     t.flush(&mut rep);
